@@ -78,7 +78,7 @@ fn main() {
     let cap = std::env::var("VERIF_CAP_S")
         .ok()
         .and_then(|s| s.parse().ok())
-        .unwrap_or(tier.pick(50u64, 1500u64));
+        .unwrap_or(tier.pick(150u64, 1500u64));
     let ctx = Ctx {
         id: id.clone(),
         tier,
